@@ -33,6 +33,16 @@ func verifGate(point string, a int64) {
 	}
 }
 
+// VerifGateReq, when set, is called at gate points that concern one request (outside every lock; may block the
+// calling goroutine): the request's timer goroutine before and after it fails the request with a timeout.
+var VerifGateReq func(point string, req InFlightRequest)
+
+func verifGateReq(point string, r *inFlightRequest) {
+	if gate := VerifGateReq; gate != nil {
+		gate(point, r)
+	}
+}
+
 // VerifInFlightHandler wraps the unexported in-flight requests handler.
 type VerifInFlightHandler struct {
 	h *inFlightRequestsHandler
